@@ -28,6 +28,12 @@ CLAIMED = {
   level=dict(category="exploration", design_ref="DESIGN.md §4.1-4.2",
     text="Seeded search over generated programs x scripted resolution paths (uniform / coverage-biased / adversarial quantiles). Every random request of the real Simulator, Assignment.evaluate, Condition.evaluate and the ten samplers is resolved at a scheduler-chosen quantile; the reference interpreter resolves its own law at the same quantile, and all iteration-boundary states (including the stuttering states after guard exit), goal columns and reported means must agree; samplers are additionally compared as quantile functions on a grid and against get_support/is_discrete/get_moment. Sampling, not enumeration: a clean batch is evidence, not proof."),
   note="Trusted: sim/refinterp.py (reference semantics, ~250 lines), sim/laws.py (scipy.stats used as a math library for cdf/ppf/moment), the generator only emits programs whose branch decisions are exact in floats (near-threshold decisions are discarded as inconclusive). Assumes random requests are issued in statement execution order and samplers are monotone non-decreasing in the underlying draw."),
+"C05": dict(
+  engine="scripted-rng-simulator",
+  technique="deterministic simulation: executions of the normalised program by Polar's own evaluator under a scripted RNG seam, seeded adversarial/coverage resolution schedules far past guard exit; state invariant value-in-type monitored after every assignment; independent exact evaluator confirms",
+  level=dict(category="exploration", design_ref="DESIGN.md §4.3",
+    text="Seeded search over generated programs (biased to guards over flags, multiply-assigned variables, _old copies, saturating counters, value sets outgrowing the typer's caps) x type_fp_iterations swarm x resolution schedules. The real parser, normaliser and FiniteFixedPointTyper produce the IR and the types; the IR is executed for 3-12 iterations by Assignment.evaluate / Condition.evaluate under the seam and `value in inferred type` is checked after every single assignment, including all iterations after the (collapsed) loop guard is false. A violation is reported only when an independent exact-rational evaluator of the same IR reaches the same value. Known finding F3 (alias default after guard exit) is matched by signature and printed as KNOWN-FINDING. Sampling, not enumeration."),
+  note="Trusted: sim/c05.py ExactIR (reads IR object fields, exact rationals), sim/refinterp.py for the source-level guard, symengine substitution as arithmetic library. User-declared types are taken as given. The IR is given the sequential guarded-assignment semantics its printed form denotes."),
 }
 checks = []
 for pid, c in sorted(CLAIMED.items()):
